@@ -987,6 +987,15 @@ def hosts_scatter():
             h.n("ScatterND", ["x", "i", "u"], "y")
             h.out("y")
             out.append(h.build())
+        # a reduction other than 'none' combines the updates with the data: never an Identity of the updates
+        for red in ("add", "mul", "max", "min", "none"):
+            h = H(f"ScatterND x={list(xs)} indices=all rows in order reduction={red}")
+            h.inp("x", F, xs)
+            h.inp("u", F, xs)
+            h.c("i", np.array(list(range(n)), dtype=np.int64).reshape(-1, 1))
+            h.n("ScatterND", ["x", "i", "u"], "y", reduction=red)
+            h.out("y")
+            out.append(h.build())
         # dynamic: indices = Unsqueeze(Range(0, Shape(x)[0], 1), -1)
         h = H(f"ScatterND dynamic range indices x={list(xs)}")
         h.inp("x", F, xs)
